@@ -553,6 +553,10 @@ def _misc(spec: str) -> list[dict]:
     else:
         out += [{"type": ["integer", "null"], "minimum": 0}, {"type": ["string", "integer"]}, {"type": ["string", "null"], "minLength": 1},
                 {"type": ["number", "null"], "maximum": 0}]
+        # `type` written as a list: every pair of the seven JSON types, no other keyword (and the one-element list)
+        names = ["null", "boolean", "integer", "number", "string", "array", "object"]
+        out += [{"type": [a, b]} for i, a in enumerate(names) for b in names[i + 1:]]
+        out += [{"type": ["number"]}, {"type": ["string", "number", "null"]}]
     return out
 
 
